@@ -225,6 +225,28 @@ def run(tier: str) -> int:
     chk.coverage['exhaustive'] = True
     if sites < 3:
         chk.inconclusive.append('fewer than 3 closure call sites found (%d): the MIR front end no longer recognises them' % sites)
+    # ---- semantic half: the panic is injected in the concrete-heap interpreter, unwinding runs through the MIR's cleanup
+    # blocks, afterwards the map must agree with the reference (entries removed by completed predicate calls are gone,
+    # the entry being processed is unchanged), len()/iteration/lookups agree, no lock is held, later operations work.
+    from .. import campaign as K
+    from ._seq import confirm
+    scs = K.scenarios_for('C18', tier, C.SEED)
+    results = K.run_scenarios(scs)
+    own, foreign = K.summarize(chk, 'C18', results, scs)
+    chk.coverage['states'] = nstates + chk.coverage.get('states', 0)
+    chk.coverage['transitions'] = ntrans + chk.coverage.get('transitions', 0)
+    byname = {s.name: s for s in scs}
+    for r in results:
+        if not r.get('error'):
+            fs = [f for f in (r.get('findings') or []) if K.owner_of(f, 'C18') == 'C18']
+            chk.obligation('panic scenario %s: after unwinding, all %d paths leave a consistent, unlocked map' % (r['name'], r.get('paths', 0)), 'unsat' if not fs else 'sat', nontrivial=r.get('paths', 0) > 1)
+    seen = set()
+    for f in own:
+        key = (f.kind, f.scenario.rsplit('/', 1)[0], f.what[:50])
+        if key in seen or len(seen) >= 3:
+            continue
+        seen.add(key)
+        confirm(chk, 'C18', byname[f.scenario], f)
     if failing:
         p = native.run_program('c18', REPLAY, [], release=False, timeout=900)
         rows = re.findall(r'shape=(\S+) op=(\S+) i=(\d+) consistent=(.*?) later=(.*)', p.stdout)
